@@ -1,8 +1,8 @@
 #!/bin/bash
-# eval_seeds.sh <property> [other-property-to-also-check] : confirm and check mut1..3 of /tmp/mut/<property>-out
-p=$1; also=${2:-}
+# eval_seeds.sh <property> [other-property-to-also-check] : confirm and check mut1..3 of $MUTROOT/<property>-out (MUTROOT default /tmp/mut)
+p=$1; also=${2:-}; R=${MUTROOT:-/tmp/mut}
 for m in mut1 mut2 mut3; do
-  echo "===== $p $m"; /verif/tools/confirm_seed.sh /tmp/mut/$p /tmp/mut/$p-out/$m | tr '\n' ';' ; echo
-  /verif/tools/seedcheck.sh /tmp/mut/$p-out/$m/patch.diff $p | cut -c1-230 | tail -4
-  if [ -n "$also" ]; then echo "--- under $also"; /verif/tools/seedcheck.sh /tmp/mut/$p-out/$m/patch.diff $also | cut -c1-230 | tail -3; fi
+  echo "===== $p $m"; /verif/tools/confirm_seed.sh $R/$p $R/$p-out/$m | tr '\n' ';' ; echo
+  /verif/tools/seedcheck.sh $R/$p-out/$m/patch.diff $p | cut -c1-230 | tail -4
+  if [ -n "$also" ]; then echo "--- under $also"; /verif/tools/seedcheck.sh $R/$p-out/$m/patch.diff $also | cut -c1-230 | tail -3; fi
 done
